@@ -139,6 +139,46 @@ def check_level(prog, res, level, units, tier):
     return funcs
 
 
+def _open_coded_tests(f, cmps):
+    """branch conditions that read, outside a regular comparison call, a buffer which the function also hands to the
+    regular comparison routines (the tag, the hash, the recovered key header)"""
+    from . import vp
+    canon = vp.Canon(f)
+    bufs = set()
+    for c in cmps:
+        if c.get("callee") in REGULAR_CMP:
+            for a in c["a"][:2]:
+                if ir.strip(a).get("p"):
+                    bufs.add(canon(a))
+    bufs.discard("")
+    out = []
+
+    def reads(e, in_cmp):
+        if not isinstance(e, dict):
+            return
+        if e.get("k") == "Call":
+            inside = in_cmp or e.get("callee") in REGULAR_CMP
+            for a in e["a"]:
+                reads(a, inside)
+            return
+        if e.get("k") in ("Index", "Un") and not in_cmp and (e.get("k") == "Index" or e.get("op") == "*"):
+            base = e["b"] if e.get("k") == "Index" else e["e"]
+            r = ir.root_ref(base)
+            nm = canon(base)
+            for b in bufs:
+                if nm == b or nm.startswith(b + "+") or (r is not None and canon(r) == b):
+                    out.append((e.get("l") or f.line, ir.show(e), b))
+                    return
+        for k in ir.kids(e):
+            reads(k, in_cmp)
+    for n in ir.walk(f.body):
+        if n.get("k") in ("If", "While", "Do", "For") and isinstance(n.get("c"), dict):
+            reads(n["c"], False)
+        elif n.get("k") == "Cond":
+            reads(n["c"], False)
+    return out
+
+
 def check_call_targets(prog, res):
     """G2: the comparison of tags / hashes / key headers goes through the regular comparison routines"""
     for name in G2_NAMES + G2_HEADER:
@@ -157,6 +197,13 @@ def check_call_targets(prog, res):
             res.violation("G2-compare-through-regular-routine", function=name, file=f.relfile, line=f.line,
                           construct="no call to memEq/memIsZero",
                           detail="%s no longer compares through the regular memEq/memIsZero (open-coded or irregular comparison)" % name)
+        elif _open_coded_tests(f, cmps):
+            for ln, txt, buf in _open_coded_tests(f, cmps):
+                res.violation("G2-compare-through-regular-routine", function=name, file=f.relfile, line=ln,
+                              construct="condition reads %s directly" % buf,
+                              detail="%s branches on `%s`, which reads the compared buffer `%s` itself instead of going through "
+                                     "memEq/memIsZero: an open-coded test (a short-circuit chain of word tests, say) depends on where "
+                                     "the first difference is" % (name, txt[:60], buf))
         else:
             res.proved("G2-compare-through-regular-routine", function=name, file=f.relfile, line=cmps[0]["l"],
                        construct="comparison by %s" % ", ".join(sorted({c["callee"] for c in cmps})),
